@@ -133,6 +133,35 @@ func vh_C05_check_last() {
 	}
 }
 
+// constructively for a FINGERPRINT that is NOT the last attribute: a value computed over the attribute's own
+// prefix (what a check anchored at the attribute would accept) is not the CRC over everything before the last
+// 8 bytes of the raw message, so the check fails (the two CRCs are computed by the oracle; natively by crc32).
+func vh_C05_check_notlast() {
+	k := vxK(2, 3)
+	m, raw, ok := vxDecoded(k)
+	if !ok {
+		return
+	}
+	n := len(m.Attributes)
+	if n < 2 {
+		return
+	}
+	i := 0
+	for i < n && m.Attributes[i].Type != AttrFingerprint {
+		i++
+	}
+	if i >= n-1 || len(m.Attributes[i].Value) != 4 {
+		return // no FINGERPRINT, or the first one is last, or not 4 bytes
+	}
+	v := m.Attributes[i].Value
+	fpOff := vxOffsetIn(v, raw) - attributeHeaderSize
+	want := vxCRC32(raw[:fpOff]) ^ refFingerprintXOR
+	v[0], v[1], v[2], v[3] = byte(want>>24), byte(want>>16), byte(want>>8), byte(want)
+	vxAssume(refFingerprint(raw) != want) // the RFC span gives another value (two different byte strings)
+	vxReach("own-prefix-value")
+	vxAssert(Fingerprint.Check(m) != nil, "a FINGERPRINT that is not last and carries the CRC of its own prefix fails: the span is everything before the last 8 bytes")
+}
+
 // vxBurstByte: byte j of a <=32-bit burst `pattern` (bit 0 = first flipped bit)
 // starting at absolute bit position start (bit 0 of byte 0 first).
 func vxBurstByte(j int, start int, pattern uint32) byte {
